@@ -14,6 +14,7 @@ from concurrent.futures import ThreadPoolExecutor
 import numpy as np
 import pandas as pd
 
+from .. import c11_life as L
 from .. import engine as E
 from .. import gen_runs as R
 from .. import loader
@@ -22,7 +23,8 @@ from .. import runsnap as S
 RULE = ("generated programs incl. stateful algos (RunOnce, RunEveryNPeriods, RebalanceOverTime, LimitDeltas) and random algos (SelectRandomly, "
         "WeighRandomly with the global seed fixed), nested trees; per case: 2-3 backtests from one template (same or different data) run in all "
         "orders and with interleaved construction/running vs each run alone; template and frames deep-compared before/after; run() twice; "
-        "child processes with PYTHONHASHSEED in {0,1,2,random}. distinct = (program shape, #backtests, order pattern)")
+        "child processes with PYTHONHASHSEED in {0,1,2,random}, incl. life-cycle programs (a security closed / rolled early, SelectActive, then an "
+        "order-sensitive consumer of the remaining selection). distinct = (program shape, #backtests, order pattern)")
 ASSUMPTIONS = ["object aliasing and interpreter hashing are not expressible in the Lean model: the model fixes what the result must be (a pure "
                "function of template, data, settings); this check is the refinement test against it"]
 HERE = os.path.dirname(os.path.dirname(os.path.dirname(os.path.abspath(__file__))))
@@ -265,6 +267,19 @@ def order_sensitive_specs(rng):
     return out
 
 
+def life_specs(ctx, n):
+    """life-cycle programs (harness/c11_life.py): a security matures or rolls early in the run (ClosePositionsAfterDates /
+    RollPositionsAfterDates), SelectActive keeps it out afterwards, and what follows depends on the order of the remaining (>= 3,
+    long distinct names) selection: SelectRandomly / WeighRandomly under fixed global seeds, whole-unit sizing with commissions.
+    Every consumer appears in turn; judged by child_runs (identical histories in every process)."""
+    out = []
+    for i in range(n):
+        spec = L.gen_life_spec(ctx.rng, L.CONSUMERS[i % len(L.CONSUMERS)])
+        ctx.classes.add(("life", spec["consumer"], tuple(d[0] for d in spec["stack"]), bool(spec["close"]), bool(spec["roll"]), spec["integer"], spec["comm"][0]))
+        out.append(spec)
+    return out
+
+
 def child_runs(ctx, bt, specs):
     """the same specs in fresh interpreters with different hash seeds: identical digests"""
     tmp = tempfile.mkdtemp(prefix="c11_")
@@ -293,6 +308,18 @@ def child_runs(ctx, bt, specs):
     ctx.count("child-specs", len(specs))
     for j, spec in enumerate(specs):
         rs = [(r[0], r[1][j]) for r in res]
+        if spec.get("kind") == "life":
+            ctx.count("life:specs")
+            ctx.count("life:consumer:" + spec["consumer"])
+            ctx.count("life:something-closed-or-rolled" if rs[0][1].get("inactive") else "life:nothing-closed-or-rolled")
+            if rs[0][1]["err"]:
+                ctx.count("life:raised:" + str(rs[0][1]["err"]))
+            if len({x[1]["digest"] for x in rs}) > 1:
+                ctx.violation("C11/hash-seed-dependence:after-close-or-roll", "same life-cycle program (%s; stack %s), global seeds fixed, PYTHONHASHSEED %r: "
+                              "final values %r, held at the end %r, closed / rolled %r"
+                              % (spec["consumer"], [d[0] for d in spec["stack"]], [x[0] for x in rs], [x[1]["final"] for x in rs],
+                                 [x[1].get("held") for x in rs], rs[0][1].get("inactive")), {"child_spec": spec})
+            continue
         if len({x[1]["digest"] for x in rs}) > 1:
             ctx.violation("C11/hash-seed-dependence", "same spec, PYTHONHASHSEED %r: final values %r, universe column orders %r"
                           % ([x[0] for x in rs], [x[1]["final"] for x in rs], [x[1]["universe"] for x in rs]), {"child_spec": spec})
@@ -447,6 +474,7 @@ def _run(ctx, bt, scale=1):
             specs.append(case["spec"])
     for _ in range(ctx.scale(2, 10) * scale):
         specs += order_sensitive_specs(ctx.rng)
+    specs += life_specs(ctx, ctx.scale(12, 80) * scale)
     child_runs(ctx, bt, specs)
 
 
